@@ -1093,7 +1093,11 @@ class Evaluator:
         tree = self.exec_block(func.node.body, sub, Ctx(func.module, func, closure if closure is not None else
                                                          (ctx.closure if func.outer is not None else None),
                                                          ctx.depth + 1))
-        return self.merge_outcome(tree, st)
+        result = self.merge_outcome(tree, st)
+        post = self.hooks.get(f'post:{func.qualname}')
+        if post is not None:
+            result = post(self, result)
+        return result
 
     def merge_outcome(self, tree, st: State) -> AV:
         """Collapse the outcome tree of an inlined call into one guarded value and one heap."""
